@@ -128,7 +128,9 @@ def _rtimer(rnd):
 
 def _rname(rnd, n):
     s = rnd.choice(["Living", "Küche", "Büro", "Z", "", "Bed 1", "寝室", "Master", "x" * n, "UUU",
-                    "U" * n, "Cafe\u0301", "\u2126 room"])
+                    "U" * n, "Cafe\u0301", "\u2126 room",
+                    # a zero-width no-break space is a character like any other
+                    "\ufeffLounge", "\ufeff"])
     while len(s.encode()) > n:
         s = s[:-1]
     return s
